@@ -74,6 +74,67 @@ type Explorer struct {
 	ExpectPanic bool
 	SamplePaths []string
 	assertedOK  map[int]bool
+	SimHits     int
+	NoSim       bool
+}
+
+// simulate looks for a counterexample to goal under the path condition by evaluating the encoding on a
+// few pseudo-random assignments (uninterpreted functions read as fixed random functions).  It only ever
+// produces counterexamples (which are then replayed natively); "holds" is always the solver's verdict.
+func (x *Explorer) simulate(goal *smt.Term) smt.Model {
+	if x.NoSim {
+		return nil
+	}
+	// inverse-paired permutations are not modelled by the hash interpretation
+	if len(x.C.Inverse) > 0 && usesInverse(goal, x.In.pc) {
+		return nil
+	}
+	for k := uint64(1); k <= 3; k++ {
+		ev := smt.NewEvaluator(nil, k*0x9e3779b97f4a7c15)
+		ok := true
+		for _, p := range x.In.pc {
+			if ev.Eval(p).Sign() == 0 {
+				ok = false
+				break
+			}
+		}
+		if !ok {
+			continue
+		}
+		if ev.Eval(goal).Sign() != 0 {
+			continue
+		}
+		m := smt.Model{}
+		for _, n := range x.varOrder {
+			m[n] = ev.Eval(x.Vars[n])
+		}
+		return m
+	}
+	return nil
+}
+
+func usesInverse(goal *smt.Term, pc []*smt.Term) bool {
+	seen := map[int]bool{}
+	found := false
+	var walk func(t *smt.Term)
+	walk = func(t *smt.Term) {
+		if found || seen[t.ID] {
+			return
+		}
+		seen[t.ID] = true
+		if t.Op == smt.OpUF && strings.Contains(t.Name, "_D_") {
+			found = true
+			return
+		}
+		for _, a := range t.Args {
+			walk(a)
+		}
+	}
+	walk(goal)
+	for _, p := range pc {
+		walk(p)
+	}
+	return found
 }
 
 type abortPath struct {
@@ -288,6 +349,11 @@ func (in *Interp) assert(c *smt.Term, msg string) {
 		x.Trivial++
 		return
 	}
+	if m := x.simulate(c); m != nil {
+		x.SimHits++
+		x.violation("assert", msg, m)
+		panic(pathEnd{"assertion violated"})
+	}
 	res, model := x.check([]*smt.Term{in.C.Not(c)}, true)
 	if res == smt.Unsat {
 		x.Discharged++
@@ -295,8 +361,8 @@ func (in *Interp) assert(c *smt.Term, msg string) {
 		return
 	}
 	x.violation("assert", msg, model)
-	// continue the path under the assumption that the assertion held (other violations may follow)
-	in.assume(c)
+	// the path ends at the first violated assertion (other paths continue)
+	panic(pathEnd{"assertion violated"})
 }
 
 func (in *Interp) addPCNoCheck(c *smt.Term) { in.addPC(c) }
